@@ -254,13 +254,22 @@ def r9_2(ctx):
 def r9_3(ctx):
     ctx.begin("R9.3", "no written module/class-level mutable state; no escaping mutable default argument", floor=5)
     # (i) module / class level mutable objects
+    # a module-level container is state only if something writes it: a constant lookup table is not
+    from ..guards import module_state_sites
+    written = {}
+    for g, node, desc, name in module_state_sites(ctx):
+        if name is not None:
+            written.setdefault((g.module.relpath, name), (g, node, desc))
     for m in ctx.repo.modules.values():
         for st in m.tree.body:
             targets = []
             if isinstance(st, ast.Assign) and isinstance(st.value, (ast.List, ast.Dict, ast.Set, ast.Call)):
                 targets = [t.id for t in st.targets if isinstance(t, ast.Name)]
             for t in targets:
-                ctx.violation(f"{m.relpath}:module-global:{t}", f"{m.relpath}:{st.lineno}", f"module-level mutable object `{t}`")
+                ctx.instance(f"{m.relpath}:module-container:{t}")
+                if (m.relpath, t) in written:
+                    g, node, desc = written[(m.relpath, t)]
+                    ctx.violation(f"{m.relpath}:module-global:{t}", f"{m.relpath}:{st.lineno}", f"module-level mutable object `{t}` is written by {g.qualname} ({g.loc(node)}): {desc}")
     for cn, ci in ctx.repo.classes.items():
         if ci.enum_members is not None:
             continue
